@@ -72,6 +72,7 @@ private theorem i17_fine (w₀ : World) (S : Option DataConn → Prop) : Fine (I
     emit := hemit
     obs := hobs
     close := keeps_close_of hmod hemit
+    drop := keeps_drop_of hmod hemit
     copen := keeps_copen_of hmod hemit hobs }
 
 private theorem i17_atoms (w₀ : World) (S : Option DataConn → Prop) : AtomsA (I17 w₀ S) := (i17_fine w₀ S).atomsA
@@ -326,6 +327,12 @@ private theorem keeps_acc_close (w₀ : World) : Keeps (Racc w₀) ctlClose := b
   · intro h; simp [ctlClose] at h
   · intro _ _; simp
 
+private theorem keeps_acc_drop (w₀ : World) : Keeps (Racc w₀) connectDrop := by
+  refine keeps_of_rel racc_trans (fun w => ⟨[.ctlClose], ?_, ?_, ?_⟩) w₀
+  · simp [connectDrop]
+  · intro h; simp [connectDrop] at h
+  · intro _ _; simp
+
 private theorem keeps_acc_copen (w₀ : World) (h : Bytes) (p : Nat) : Keeps (Racc w₀) (connectOpen h p) := by
   refine keeps_of_rel racc_trans
     (fun w => ⟨[.ctlConnect h p] ++ w.observers.map (fun o => .obsConnected o h p), ?_, ?_, ?_⟩) w₀
@@ -338,6 +345,7 @@ private theorem acc_fine (w₀ : World) : Fine (Racc w₀) where
   emit e _ := keeps_acc_emit w₀ e
   obs f _ := keeps_acc_obs w₀ f
   close := keeps_acc_close w₀
+  drop := keeps_acc_drop w₀
   copen := keeps_acc_copen w₀
 
 private theorem acc_atoms (w₀ : World) : AtomsD (Racc w₀) where
